@@ -200,8 +200,18 @@ def attrs_verdict(attrs, fname):
         elif a.text.startswith(IGNORED_ATTR_PREFIXES):
             pass
         else:
-            fail('attribute %s is outside the subset' % a.text, a.line, fname)
+            m = re.fullmatch(r'#\[cfg\((not\()?feature\s*=\s*"([A-Za-z0-9_\-]+)"\)?\)\]', a.text.replace(' ', ''))
+            if m is None:
+                fail('attribute %s is outside the subset' % a.text, a.line, fname)
+            # cargo feature: the translation models the build whose enabled features are listed in ENABLED_FEATURES
+            # (default: none = the default build; the crate's Cargo.toml declares no `default` feature set)
+            on = m.group(2) in ENABLED_FEATURES
+            if on == bool(m.group(1)):
+                verdict = 'skip'
     return verdict
+
+
+ENABLED_FEATURES = set()
 
 
 # ---------------------------------------------------------------------------------------------------------
@@ -770,9 +780,18 @@ class Parser:
             return ('return', e, t.line)
         if t.kind == 'id' and t.text in ('fn', 'const', 'static', 'struct', 'enum', 'use', 'type', 'impl', 'trait', 'mod'):
             self.fail('nested item `%s`' % t.text)
+        label = None
+        if t.kind == 'other' and re.match(r"^'[A-Za-z_]\w*$", t.text) and self.at(':', 1) and (self.at('loop', 2) or self.at('while', 2)):
+            # a labelled loop: the label is accepted when every labelled break / continue inside names this (innermost) loop
+            label = t.text
+            self.i += 2
+            t = self.peek()
+        self.loop_labels = getattr(self, 'loop_labels', [])
         if self.at('loop'):
             self.i += 1
+            self.loop_labels.append(label)
             body = self.parse_block()
+            self.loop_labels.pop()
             if self.at(';'):
                 self.i += 1
             return ('loop', body, t.line)
@@ -781,7 +800,9 @@ class Parser:
             if self.at('let'):
                 self.fail('`while let`')
             cond = self.parse_expr(nostruct=True)
+            self.loop_labels.append(label)
             body = self.parse_block()
+            self.loop_labels.pop()
             if self.at(';'):
                 self.i += 1
             return ('while', cond, body, t.line)
@@ -789,7 +810,10 @@ class Parser:
             kw = self.peek().text
             self.i += 1
             if self.peek().kind == 'other':
-                self.fail('labelled %s' % kw)
+                lab = self.peek().text
+                if not (self.loop_labels and self.loop_labels[-1] == lab):
+                    self.fail('labelled %s that does not name the innermost enclosing loop' % kw)
+                self.i += 1
             if not (self.at(';') or self.at('}')):
                 self.fail('`%s` with a value' % kw)
             if self.at(';'):
@@ -813,7 +837,8 @@ class Parser:
         if nt.kind == 'punct' and nt.text in ASSIGN_OPS:
             self.i += 1
             rhs = self.parse_expr()
-            self.expect(';')
+            if not self.at('}'):                 # `x = e` as the last expression of a block (type unit) needs no `;`
+                self.expect(';')
             return ('assign', e, nt.text, rhs, nt.line)
         if nt.kind == 'punct' and nt.text in ('/=', '%='):
             self.fail('compound assignment %s' % nt.text)
@@ -828,8 +853,26 @@ class Parser:
     def parse_fn(self, sig_only=False):
         t = self.expect('fn')
         name = self.ident().text
+        generics = []
         if self.at('<'):
-            self.fail('generic function')
+            # type parameters `<T: Copy, U>`: names only (bounds are skipped; lifetimes / const generics refused). A generic
+            # function is translated once per instantiation, the type arguments being inferred at the call (rs2v_tr)
+            self.i += 1
+            while not self.at('>'):
+                g = self.peek()
+                if g.kind != 'id' or g.text == 'const':
+                    self.fail('generic parameter that is not a plain type name')
+                generics.append(self.ident().text)
+                if self.at(':'):
+                    self.i += 1
+                    while not (self.at(',') or self.at('>')):
+                        b = self.peek()
+                        if b.kind == 'eof' or (b.kind == 'punct' and b.text in ('(', '{', '<')):
+                            self.fail('bound of a generic parameter outside `Name + Name`')
+                        self.i += 1
+                if self.at(','):
+                    self.i += 1
+            self.expect('>')
         self.expect('(')
         params = []
         while not self.at(')'):
@@ -854,9 +897,9 @@ class Parser:
         if self.at('where'):
             self.fail('where clause')
         if sig_only:
-            return ('fn', name, params, ret, None, t.line)
+            return ('fn', name, params, ret, None, t.line) + ((generics,) if generics else ())
         body = self.parse_block()
-        return ('fn', name, params, ret, body, t.line)
+        return ('fn', name, params, ret, body, t.line) + ((generics,) if generics else ())
 
     def parse_const(self):
         t = self.peek()
